@@ -23,8 +23,9 @@ ASSUMPTIONS = [
     'from list (append/extend/insert/__setitem__/+=) and the trusted constructor flag unique=True are outside the claim',
     'ulist: "duplicate" means what python containers mean by it (a is b or a == b), so 1, 1.0 and True are one element and a NaN object '
     'is a duplicate of itself only; right-hand operands are a single hashable non-list element, a list or a ulist',
-    'mapping keys are identifier-like strings without "." (dictattr reads a dotted key as a tree path - that is C15), without a leading "_" '
-    '(dictattr stores those as real attributes on purpose) and never the name of a dict/dictattr/Dict/dictable attribute or constructor parameter',
+    'mapping keys are non-empty strings without "." (dictattr reads a dotted key as a tree path - that is C15) and never the name of a '
+    'dict/dictattr/Dict/dictable attribute or constructor parameter; attribute SET / DELETE is claimed only for keys without a leading "_" '
+    '(dictattr stores those as real attributes on purpose); attribute GET and all operators include such keys',
     'mapping values are flat: None, bools, ints, floats, strings, lists and tuples of them (no dict values: Dict + dict is the deep merge of C15)',
     'key selections are a single string or a list of strings (a tuple operand of "-" is a tree path, C15)',
     'd[list] and d[k1, k2] with an absent key may raise KeyError; nothing else is asserted about them',
@@ -102,10 +103,6 @@ def _ulist_case(draw):
             xs = [draw(inside) for _ in range(draw(st.sampled_from([0, 1, 1, 2, 2, 3, 4])))] + [draw(anywhere) for _ in range(draw(st.sampled_from([0, 0, 1, 1, 2, 3])))]
             ops.append([op, kind, list(draw(st.permutations(xs)))])
     return dict(pool=pool, init=init, ctor=ctor, ops=ops)
-
-
-def _alias_class(v):
-    return isinstance(v, (bool, float)) and not isinstance(v, list)
 
 
 def run_ulist_ops(spec):
@@ -196,7 +193,7 @@ def run_ulist_ops(spec):
 
 # ----------------------------------------------------------------------------- mappings
 
-_KEYS = ['a', 'b', 'c', 'd', 'e', 'A', 'ab', 'x_a', 'a_x', 'k1']
+_KEYS = ['a', 'b', 'c', 'd', 'e', 'A', 'ab', 'x_a', 'a_x', 'k1', '_h', 'a b', '1']
 _ABSENT_EXTRA = ['zz', 'q']
 _NEW = ['N1', 'N2', 'N3', 'N4']
 _FLAT_SCALAR = st.one_of(st.integers(-3, 6), st.sampled_from(['', 'a', 'b', 'A']), st.none(), st.sampled_from([0.0, 1.5]), st.booleans())
@@ -262,8 +259,10 @@ def _mapping_case(draw):
             sel = sel + list(draw(st.permutations(keys + absent))[:lo - len(sel)])
         return sel
 
-    def onekey():
-        return draw(st.sampled_from(keys)) if keys and draw(st.booleans()) else draw(st.sampled_from(absent))
+    def onekey(public=False):
+        ins = [k for k in keys if not (public and k.startswith('_'))]
+        outs = [k for k in absent if not (public and k.startswith('_'))]
+        return draw(st.sampled_from(ins)) if ins and draw(st.booleans()) else draw(st.sampled_from(outs))
 
     op = dict(name=opname)
     if opname in ('sub1', 'and1'):
@@ -276,8 +275,8 @@ def _mapping_case(draw):
         op['other_cls'] = draw(st.sampled_from(['dict', 'dictattr', 'Dict'] if cls in _DICT_FAMILY else ['dict', 'dictattr', 'Dict', 'AttrSub', 'DictSub']))
     elif opname == 'attr':
         op['probe'] = selection(lo=1, unique=True)
-        op['set'] = [onekey(), draw(_FLAT)]
-        op['del'] = onekey()
+        op['set'] = [onekey(public=True), draw(_FLAT)]
+        op['del'] = onekey(public=True)
     elif opname == 'relabel':
         forms = ['kw', 'kw', 'dict', 'prefix', 'suffix', 'callable'] + (['list', 'args'] if len(keys) >= 2 else [])
         form = draw(st.sampled_from(forms))
@@ -346,15 +345,15 @@ def _is_known_and(spec):
     return not any(k in present for k in sel)
 
 
+# F13 (found here and independently by C01): fixed in /repo by fb35268, so the class is generated again. The predicate stays available as
+# a signature for known_findings.json, and PV_C16_EXCLUDE_F13=1 leaves the class out by construction (for runs against a tree without the fix).
 KNOWN = {'c16.dictable_and_no_overlap': _is_known_and}
-
-# the generator leaves the known class out by construction; PV_C16_INCLUDE_KNOWN=1 puts it back (to re-find it / after a fix in pyg_base)
-EXCLUDE_KNOWN_BY_CONSTRUCTION = os.environ.get('PV_C16_INCLUDE_KNOWN', '') != '1'
+EXCLUDE_F13_BY_CONSTRUCTION = os.environ.get('PV_C16_EXCLUDE_F13', '') == '1'
 
 
 def _mapping_strategy(tier):
     s = _mapping_case()
-    if EXCLUDE_KNOWN_BY_CONSTRUCTION:
+    if EXCLUDE_F13_BY_CONSTRUCTION:
         def repair(spec):
             if _is_known_and(spec):
                 # construction, not filtering: the selection gets the first column appended
@@ -452,6 +451,7 @@ def run_mapping_ops(spec):
         exp = dict(data)
         exp.update(odata)
         _check_mapping(what, res, exp, d, ordered=False)
+        check(res == {**data, **odata}, '%s = %s is not equal to {**d, **o} = %s', what, res, exp)
         check(_snapshot(other) == osnap and type(other) is C[op['other_cls']], '%s changed its right operand to %s', what, other)
         n_over = sum(1 for k in odata if k in data)
         cls.append('other=' + op['other_cls'])
@@ -693,7 +693,7 @@ def _call_case(draw, tier):
     nb = draw(st.integers(0, 4))
     bnames = list(draw(st.permutations(_B_NAMES))[:nb])
     base = [[b, draw(st.integers(0, 9))] for b in bnames]
-    allperm = tier == 'thorough' and draw(st.integers(0, 7)) == 0
+    allperm = tier == 'thorough' and draw(st.integers(0, 9)) == 0
     nplain = draw(st.integers(0, 0 if (allperm and nd == 6) else min(2, 6 - nd) if allperm else 2))
     plain = [[n, draw(st.integers(10, 19))] for n in list(draw(st.permutations(_B_NAMES))[:nplain])]
     avail = sorted(set(bnames) | set(n for n, _ in plain))
@@ -831,14 +831,14 @@ def _enum_sample(draw):
 # ----------------------------------------------------------------------------- registry
 
 SUBS = [
-    Sub('ulist_ops', lambda tier: _ulist_case(), run_ulist_ops, quick=4000, thorough=30000,
+    Sub('ulist_ops', lambda tier: _ulist_case(), run_ulist_ops, quick=8000, thorough=30000,
         rule='a pool of 1-7 hashable elements (ints, strings, None, tuples, 1/1.0/True aliases, NaN objects); ulist built from a list/tuple/ulist of <= 9 '
              'pool elements, then a chain of 1-3 operations + | - & with a single pool element, a list (<= 7, repeats allowed) or a ulist; after every step: '
              'result is a ulist, duplicate-free, equal to the ordered-set model (first-occurrence order), both operands untouched. '
              'non-trivial = some list/ulist operand overlaps the current ulist partially and (operand or initial list) has repeated elements',
         floor=0.12, class_floors={'dup_in_operand': 0.2, 'overlap=partial': 0.2, 'elem_present': 0.1, 'elem_absent': 0.05,
                                   'op&': 0.2, 'op-': 0.2, 'op+': 0.2, 'op|': 0.2, 'kind=ulist': 0.1, 'equal_across_types': 0.005}),
-    Sub('mapping_ops', _mapping_strategy, run_mapping_ops, quick=5000, thorough=30000,
+    Sub('mapping_ops', _mapping_strategy, run_mapping_ops, quick=10000, thorough=30000,
         rule='mapping of class dictattr / Dict / local subclass of each / dictable with 0-5 string keys and flat values; one operation: d - key, d - [keys], '
              'd & key, d & [keys], d[[keys]], d[k1, k2], d + other, relabel (keyword, dict, prefix, suffix, callable, full list, *names), attribute get/set/del; '
              'selections present / absent / mixed; oracle: plain dict model, type(result) is type(d), result is not d, exact keys (ordered for - and &), '
@@ -846,13 +846,13 @@ SUBS = [
         floor=0.25, class_floors={'cls=dictable': 0.1, 'cls=AttrSub': 0.1, 'cls=DictSub': 0.1, 'sel=mixed': 0.08, 'sel=absent': 0.05, 'op=add': 0.08,
                                   'add_overlap=some': 0.03, 'op=relabel': 0.08, 'relabel=list': 0.004, 'relabel=callable': 0.008, 'op=gett': 0.04,
                                   'op=attr': 0.02}),
-    Sub('call_graph', lambda tier: _call_case(tier), run_call, quick=2500, thorough=12000,
+    Sub('call_graph', lambda tier: _call_case(tier), run_call, quick=4000, thorough=3000,
         rule='Dict / subclass with 0-4 base keys; keywords = 1-6 callable (derived) keys whose parameters name base keys, plain keywords or other derived keys '
              '(random dag over a hidden rank order; 1 in 4 gets 1-2 back edges, no self-loops; 1 in 4 derived names also has an old value in d) plus 0-2 plain keywords; '
-             'called in the drawn order, 2 more drawn orders and the reverse (thorough: 1 case in 8 in ALL orders, <= 720); oracle: recursive evaluator on the '
+             'called in the drawn order, 2 more drawn orders and the reverse (thorough: 1 case in 10 in ALL orders of its <= 6 keywords, <= 720); oracle: recursive evaluator on the '
              'parameter names, ValueError iff a cycle exists, result class, d unchanged. non-trivial = cyclic, or depth >= 2 with an order that is not topological',
         floor=0.3, class_floors={'cyclic': 0.08, 'deep_and_out_of_order': 0.3, 'derived=6': 0.1, 'derived_key_shadows_old_value': 0.2}),
-    EnumSub('call_perms', enum_call_perms, run_call, strategy=lambda tier: _enum_sample(), quick=2500, chunks=64,
+    EnumSub('call_perms', enum_call_perms, run_call, strategy=lambda tier: _enum_sample(), quick=4000, chunks=64,
             rule='every digraph without self-loops on 1-4 derived keys (1 + 4 + 64 + 4 096) and a fixed family of 22 graphs each on 5 and 6 keys '
                  '(chains in both label orders, stars, complete dag, tree, diamonds, 2-/3-/n-cycles with tails), every key also reading base keys; each graph in EVERY '
                  'keyword order (n!) with and without old values under the derived names; same oracle as call_graph. quick tier samples this domain',
